@@ -40,11 +40,19 @@ def scripts(rng, tier, n=None):
             L = [p.line(1, ssrc_type=SSRC_ANY_OUT), p.line(2, ssrc_type=SSRC_ANY_IN), "create 1 1", "create 2 2"]
         else:
             L = [p.line(1), "create 1 1", "create 2 1"]
-        seq = rng.choice([0, 1, 65533, 30000])
+        seq = [0, 1, 65533, 30000][k % 4] if k % 3 == 0 else rng.choice([0, 1, 65533, 30000])
+        gaps = []           # sequence numbers the sender skipped: sent LATE afterwards (sender-side reordering, also across the wrap)
         for i in range(8 if tier == "quick" else 30):
             big = tier != "quick" and rng.random() < 0.05
-            pkt = rand_rtp(rng, rng.choice(ssrcs), seq & 0xffff, ids=list(p.enc_xtn) or None, big=big, ext_p=ext_p)
-            seq += rng.choice([1, 1, 2, 5])
+            if gaps and not wild and rng.random() < 0.3:
+                late = gaps.pop(rng.randrange(len(gaps)))
+                pkt = rand_rtp(rng, ssrcs[0], late & 0xffff, ids=list(p.enc_xtn) or None, big=big, ext_p=ext_p)
+            else:
+                pkt = rand_rtp(rng, rng.choice(ssrcs), seq & 0xffff, ids=list(p.enc_xtn) or None, big=big, ext_p=ext_p)
+                step = rng.choice([1, 1, 2, 5])
+                gaps += [seq + d for d in range(1, step)]
+                gaps = gaps[-6:]
+                seq += step
             mi = rng.randrange(len(p.keys)) if p.use_mki else 0
             L.append(pkt_op("protect", 1, pkt, cap=len(pkt) + p.trailer(), mode=rng.choice([0, 1, 2]), mki_index=mi)); a = len(L)
             umode = rng.choice([0, 1, 2])
